@@ -329,3 +329,126 @@ def paths(body: Sequence[ast.stmt], limit: int = 4000) -> List[Tuple[List[ast.st
             return out
         return [([st], "fall")]
     return seq(list(body))
+
+
+# ------------------------------------------------------------------ guarded paths (shape-independent view of a function's decisions)
+_CANON_CMP = {ast.NotEq: (ast.Eq, False), ast.NotIn: (ast.In, False), ast.IsNot: (ast.Is, False), ast.Eq: (ast.Eq, True), ast.In: (ast.In, True),
+              ast.Is: (ast.Is, True), ast.Lt: (ast.Lt, True), ast.LtE: (ast.LtE, True), ast.Gt: (ast.LtE, False), ast.GtE: (ast.Lt, False)}
+
+
+def literals(test: ast.expr, pol: bool = True) -> List[Tuple[str, bool]]:
+    """The conjunction of literals that is known when `test` evaluates to `pol`: `a and b` true gives both, `a or b` false gives both
+    negated, `not`, `!=`, `not in`, `is not`, `>`, `>=` are folded into the polarity.  What cannot be split is one literal."""
+    t = test
+    while isinstance(t, ast.UnaryOp) and isinstance(t.op, ast.Not):
+        t, pol = t.operand, not pol
+    if isinstance(t, ast.BoolOp) and ((isinstance(t.op, ast.And) and pol) or (isinstance(t.op, ast.Or) and not pol)):
+        out: List[Tuple[str, bool]] = []
+        for v in t.values:
+            out += literals(v, pol)
+        return out
+    if isinstance(t, ast.BoolOp):
+        # the unsplittable side: canonical text is the disjunction of the literal forms that make it `pol`
+        parts = sorted("&".join(f"{'' if p else '!'}{x}" for x, p in literals(v, pol)) for v in t.values)
+        return [(" | ".join(parts), True)]
+    if isinstance(t, ast.Compare) and len(t.ops) == 1 and type(t.ops[0]) in _CANON_CMP:
+        op, keep = _CANON_CMP[type(t.ops[0])]
+        c = ast.Compare(left=t.left, ops=[op()], comparators=t.comparators)
+        return [(ast.unparse(c), pol if keep else not pol)]
+    return [(ast.unparse(t), pol)]
+
+
+class GPath:
+    """One structured path: the literals assumed on the way, the simple statements executed, how it ends."""
+    __slots__ = ("conds", "stmts", "end")
+
+    def __init__(self, conds, stmts, end):
+        self.conds, self.stmts, self.end = conds, stmts, end
+
+    def assumes(self, text: str, pol: bool = True) -> bool:
+        return (text, pol) in self.conds
+
+    def mentions(self, text: str) -> bool:
+        return any(c == text for c, _ in self.conds)
+
+    @property
+    def last(self) -> Optional[ast.stmt]:
+        return self.stmts[-1] if self.stmts else None
+
+    def has(self, text: str) -> bool:
+        return any(ast.unparse(s) == text for s in self.stmts)
+
+    def __repr__(self):
+        return f"<{' & '.join(('' if p else '!') + c for c, p in self.conds)} :: {len(self.stmts)} stmts -> {self.end}>"
+
+
+def gpaths(body_or_fn, limit: int = 4000) -> List[GPath]:
+    """paths() with the branch literals recorded.  Loops are taken 0 or 1 times (the loop test is not recorded), a try body either
+    completes or enters a handler from its start.  A path that assumes both `c` and `not c` is infeasible and dropped."""
+    body = body_of(body_or_fn) if isinstance(body_or_fn, (ast.FunctionDef, ast.AsyncFunctionDef)) else list(body_or_fn)
+
+    def feasible(conds):
+        s = set(conds)
+        return not any((c, not p) in s for c, p in s)
+
+    def seq(stmts, pre: GPath) -> List[GPath]:
+        acc = [pre]
+        for st in stmts:
+            new: List[GPath] = []
+            for p in acc:
+                if p.end != "fall":
+                    new.append(p)
+                    continue
+                new += one(st, p)
+                if len(new) > limit:
+                    raise OverflowError("too many paths")
+            acc = new
+        return acc
+
+    def one(st, p: GPath) -> List[GPath]:
+        if isinstance(st, (ast.Return, ast.Raise, ast.Break, ast.Continue)):
+            return [GPath(p.conds, p.stmts + [st], type(st).__name__.lower())]
+        if isinstance(st, ast.If):
+            out = []
+            for pol, arm in ((True, st.body), (False, st.orelse)):
+                c2 = p.conds + [l for l in literals(st.test, pol) if l not in p.conds]
+                if feasible(c2):
+                    out += seq(arm, GPath(c2, p.stmts, "fall"))
+            return out
+        if isinstance(st, (ast.For, ast.While, ast.AsyncFor)):
+            out = [GPath(p.conds, p.stmts, "fall")]
+            for q in seq(st.body, GPath(p.conds, p.stmts, "fall")):
+                out.append(GPath(q.conds, q.stmts, "fall" if q.end in ("fall", "break", "continue") else q.end))
+            if st.orelse:
+                out = [r for q in out for r in (seq(st.orelse, q) if q.end == "fall" else [q])]
+            return out
+        if isinstance(st, (ast.With, ast.AsyncWith)):
+            return seq(st.body, p)
+        if isinstance(st, ast.Try):
+            out = []
+            for q in seq(st.body, p):
+                out += seq(st.orelse, q) if (q.end == "fall" and st.orelse) else [q]
+            for h in st.handlers:
+                out += seq(h.body, GPath(p.conds, p.stmts, "fall"))
+            if st.finalbody:
+                out = [GPath(r.conds, r.stmts, r.end if q.end == "fall" else q.end) for q in out for r in seq(st.finalbody, GPath(q.conds, q.stmts, "fall"))]
+            return out
+        return [GPath(p.conds, p.stmts + [st], "fall")]
+    return seq(body, GPath([], [], "fall"))
+
+
+def lit(text: str) -> List[Tuple[str, bool]]:
+    """The canonical literal(s) of a condition written as source text: lit("n > 1") == [("n <= 1", False)]."""
+    return literals(ast.parse(text, mode="eval").body, True)
+
+
+def paths_through(fn, pred) -> List[GPath]:
+    """Guarded paths that execute a simple statement satisfying pred(stmt_text, stmt)."""
+    return [q for q in gpaths(fn) if any(pred(ast.unparse(s), s) for s in q.stmts)]
+
+
+def always_under(fn, pred, cond: str) -> bool:
+    """Every path executing a statement that satisfies `pred` assumes `cond` (and there is such a path)."""
+    ps = paths_through(fn, pred)
+    want = lit(cond)
+    return bool(ps) and all(all(w in q.conds for w in want) for q in ps)
